@@ -73,6 +73,7 @@ Definition head_of (f : file) (b : N) : N := hd 0 (f_chain f b).
 Inductive op := OpNew (nm : name) | OpAdd (k : N).
 
 Inductive fail :=
+  | FEmpty          (* "counter name empty" *)
   | FTooLong        (* "counter name too long" *)
   | FTries          (* errCorrupt: 10 remaps did not help *)
   | FLimitWithin    (* errCorrupt: limit within the mapping although lookup failed *)
@@ -228,7 +229,9 @@ Fixpoint dispatch (ops : list op) (t : thread) : thread :=
   match ops with
   | [] => set_pc Done (set_ops [] t)
   | OpNew nm :: ops' =>
-      if c_maxNameLen <? nlen nm
+      if nlen nm =? 0
+      then dispatch ops' (push_res (RFail FEmpty) (set_cell 0 t))
+      else if c_maxNameLen <? nlen nm
       then dispatch ops' (push_res (RFail FTooLong) (set_cell 0 t))
       else set_pc LHead (set_ops ops' (set_nm nm (set_tries 0 (set_map (t_map0 t) (set_cell 0 t)))))
   | OpAdd k :: ops' =>
@@ -246,17 +249,18 @@ Definition ret_fail (e : fail) (t : thread) : thread :=
 Definition look_fail (t : thread) : thread :=
   if 10 <=? t_tries t then ret_fail FTries t else set_pc RLimit t.
 
-(* loop head of mappedFile.lookup, up to entryAt's first test *)
+(* loop head of mappedFile.lookup, up to entryAt's first test (bounds and,
+   since fix a01a83c, 8-byte alignment of the offset) *)
 Definition look_at (t : thread) (off n : N) : thread :=
   if off =? 0 then set_pc PLimit t
-  else if (t_map t / UNIT <? n) || (off <? H + c_hashOff) || (t_map t <? off + 16)
+  else if (t_map t / UNIT <? n) || (off <? H + c_hashOff) || negb (off mod 8 =? 0) || (t_map t <? off + 16)
        then look_fail t
        else set_pc LLen (set_off off (set_n n t)).
 
 (* loop head of the duplicate walk *)
 Definition dwalk (t : thread) (off n : N) : thread :=
   if off =? t_oldh t then set_pc KNext t
-  else if (off <? H + c_hashOff) || (t_map t <? off + 16)
+  else if (off <? H + c_hashOff) || negb (off mod 8 =? 0) || (t_map t <? off + 16)
        then ret_fail FBeyond t
        else set_pc DLen (set_off off (set_n n t)).
 
